@@ -286,6 +286,7 @@ def run(rep, for_c07=False):
         watchdog_pacing(rep)
     else:
         two_node_objects(rep)
+        back_to_back(rep)
         answer_behind_submissions(rep)
     wd = tlc.workdir("MC_Psm")
     try:
@@ -327,6 +328,11 @@ def run(rep, for_c07=False):
 def replay(rep, path):
     r = json.load(open(path))["replay"]
     nodemod.ensure_installed(0)
+    if r.get("kind") == "back-to-back":
+        back_to_back(rep)
+        rep.states, rep.transitions = 1, 1
+        rep.sample(r)
+        return rep.finish()
     if r.get("kind") == "answer-behind-submissions":
         answer_behind_submissions(rep)
         rep.states, rep.transitions = 1, 1
@@ -437,6 +443,61 @@ def two_node_objects(rep):
         rep.case(("two-node-objects", order))
         for pr in problems[:3]:
             rep.violation(f"two node objects in one process ({'client' if order == 0 else 'server'} created first): {pr}", {"kind": "two-node-objects", "order": order})
+
+
+def back_to_back(rep):
+    """Requests that arrive together (one segment): consecutive ticks answer them while the transport thread is not scheduled in
+    between - every answer still leaves once, with the identifiers of its own request, in the order of the requests."""
+    for role in ("server", "client"):
+        for seq in ((("DWR", 2), ("DWR", 3)), (("DWR", 4), ("DWR", 1), ("DWR", 2)), (("CER", 3), ("DWR", 2))):
+            n = nodemod.Node(role, seed=len(seq))
+            problems = []
+            try:
+                n.start()
+                psm, g = n.psm_thread, 0
+                while not psm.done and not n.at_ticker(psm) and g < 600:
+                    n.s.step(psm)
+                    g += 1
+                n.pump()
+                if role == "client":
+                    n.tick()
+                    n.tick()
+                    n.take_sent()
+                    n.inject(n.make("CEA", True, 1))
+                else:
+                    n.inject(n.make("CER", True, 1))
+                n.tick()
+                n.take_sent()
+                if n.state() != "Open":
+                    raise tlc.TlcError(f"back-to-back: the {role} node did not open")
+                for kind, i in seq:
+                    n.inject(n.make(kind, True, i))
+                for _ in range(len(seq)):
+                    # one tick of the state machine thread alone (others run only when it waits for one of them)
+                    psm, first, g = n.psm_thread, True, 0
+                    while g < 3000 and not psm.done and (first or not n.at_ticker(psm)):
+                        if n.s.enabled(psm) == "go":
+                            n.s.step(psm)
+                            first = False
+                        elif not n.run_one_other():
+                            break
+                        g += 1
+                n.pump()
+                for _ in range(3):
+                    n.tick()
+                got = [(n.classify(m), m.header.get_hop_by_hop(), m.header.get_end_to_end()) for m in n.take_sent() if n.classify(m) in ("DWA", "CEA")]
+                want = [("DWA" if kind == "DWR" else "CEA",) + n.ids(i) for kind, i in seq]
+                if got != want:
+                    problems.append(f"answers on the wire {[(k, hex(h), hex(e)) for k, h, e in got]}, expected {[(k, hex(h), hex(e)) for k, h, e in want]}")
+            except (vsched.Deadlock, vsched.StepLimit, vsched.StepHang) as e:
+                problems.append(f"{type(e).__name__}: {str(e)[:200]}")
+            finally:
+                n.s.kill_all()
+            rep.case(("back-to-back", role, str(seq)))
+            if problems:
+                rep.violation(f"{role}: {[k for k, _i in seq]} arriving together, answered by consecutive ticks before the transport thread runs: {problems[0]}",
+                              {"kind": "back-to-back", "role": role})
+                return
 
 
 def answer_behind_submissions(rep):
